@@ -82,6 +82,15 @@ CHECKS = {
         "Trusted: the interposed wrappers only record arguments/return values and delegate.",
         "DESIGN.md §3 C20",
     ),
+    "C06": (
+        "by-construction oracle: reads generated as exact haplotype copies with every CIGAR shape are passed through the real "
+        "ReadSetReader.read; the allele recorded per (fragment, variant) is compared with the haplotype's allele for fully covered "
+        "variants and must be absent for non-overlapping ones; ASan/UBSan lane",
+        "Hundreds of thousands of (read, variant) pairs per run over all variant kinds, clips, =/X, N skips, hidden unrelated "
+        "variants, contig ends and mate layouts, with and without reference.",
+        "Trusted: the simulator's left-normalisation and shift-range computation; 'fully covered' = footprint + shift range + 1 base each side.",
+        "DESIGN.md §3 C06",
+    ),
     "C07": (
         "post-condition oracle on readselection's result + invariant/temporal/conservation monitors on the interposed "
         "coverage monitor (cap after every insertion, check-before-insert, exactly-once charging) over generated and "
